@@ -117,3 +117,19 @@ func c12R9(h H) {
 	}
 	r.Check(bad == "", "R9", "errors.errorsParse/pages-as-written", fn.Pos(), "every configured error page is the written path resolved against the site root", bad)
 }
+
+// c12R10: a handler that has begun the response reports no error status.  The handlers above a terminal handler
+// (errors, the server's fallback, gzip's) answer a returned status of 400 and more themselves — with an error page
+// and a header of their own.  fastcgi.Handler.ServeHTTP is evaluated (E10, the table of C19 R4) for an exchange that
+// succeeds and whose body relay then fails (the client went away, the responder died mid-body): the header has been
+// written once, and the handler returns a status below 400 with the error.
+func c12R10(h H) {
+	r := h.r
+	r.Rule("R10", "a begun response is not answered a second time, as a table (E10) of fastcgi.Handler.ServeHTTP: with the responder's header relayed and the body copy failing, the handler returns a status below 400 (and the error), so that no handler above writes an error page and a second header into the response", 1)
+	fn := h.fn("R10", fcPkg, "Handler.ServeHTTP")
+	if fn == nil {
+		return
+	}
+	bad, n := fcgiExchangeTable(h, fn, []fcgiCase{{"a complete response whose body then cannot be relayed", "full", "", 0, true}})
+	r.Check(bad == "" && n == 1, "R10", "fastcgi.Handler.ServeHTTP/no-error-status-after-the-header", fn.Pos(), "once the responder's header is written the handler reports errors without a status", sprintf("%d exchange evaluated", n), bad)
+}
